@@ -615,4 +615,158 @@ theorem Reachable.inv4 {cfg : Cfg} {s : State} (h : Reachable cfg s) : Inv4 s :=
     · have e0 := Eff.recycle (cfg := cfg) (s := s0) i ts
       exact (ih.eff hr.inv12.1 e0).eff (hr.inv12.1.eff e0) e
 
+/-- the lock woken by a release is flagged stale exactly when the node (after the release) carries a
+    publication above its start timestamp -/
+theorem eff_wakeup_exact {cfg : Cfg} {s s' : State} (h1 : Inv1 cfg s) (h2 : Inv2 cfg s) (h3 : Inv3 cfg s) (h4 : Inv4 s)
+    {o : Option LockId} (e : Eff cfg s o s') {w : LockId} {lkw lkw' : Lock} {key : Key}
+    (hlw : s.locks w = some lkw) (hpw : lkw.phase = .waiting) (hkw : lkw.nextKey = some key)
+    (hlw' : s'.locks w = some lkw') (hpw' : lkw'.phase = .woken) :
+    lkw'.isStale = true ↔ ∃ n c, nodeOf cfg s' key = some n ∧ c ∈ n.pubs ∧ c > lkw.startTS := by
+  -- effects that rewrite one lock `l0` into a phase other than `woken`, `l0` not being blocked
+  have single : ∀ (l0 : LockId) (lk0 lk0' : Lock), s.locks l0 = some lk0 → lk0.phase ≠ .waiting →
+      upd s.locks l0 (some lk0') w = some lkw' → False := by
+    intro l0 lk0 lk0' h0 hp0 h
+    rcases upd_some h with ⟨e1, _⟩ | ⟨_, h⟩
+    · subst e1; rw [hlw] at h0; cases h0; exact hp0 hpw
+    · rw [hlw] at h; cases h; rw [hpw] at hpw'; cases hpw'
+  have rel_other : ∀ (l0 w0 : LockId) (lk0 lk0' x : Lock), s.locks l0 = some lk0 → lk0.phase = .releasing →
+      w ≠ w0 → upd (upd s.locks l0 (some lk0')) w0 (some x) w = some lkw' → False := by
+    intro l0 w0 lk0 lk0' x h0 hp0 hne h
+    rw [upd_ne _ _ hne] at h
+    exact single l0 lk0 lk0' h0 (by simp [hp0]) h
+  cases e with
+  | gen ts keys hnd =>
+    rcases upd_some hlw' with ⟨e1, _⟩ | ⟨_, h⟩
+    · subst e1; exact absurd (h1.fresh _ _ hlw) (Nat.lt_irrefl _)
+    · rw [hlw] at h; cases h; rw [hpw] at hpw'; cases hpw'
+  | recycle i ts =>
+    have h : s.locks w = some lkw' := hlw'
+    rw [hlw] at h; cases h; rw [hpw] at hpw'; cases hpw'
+  | staleRet l0 lk hl hp hst => exact (single l0 lk _ hl (phase_ne_waiting_of hp) hlw').elim
+  | acqNew l0 lk k0 slotID hl hp hst hk hs hf => exact (single l0 lk _ hl (phase_ne_waiting_of hp) hlw').elim
+  | acqStale l0 lk k0 slotID n hl hp hst hk hs hf hgt => exact (single l0 lk _ hl (phase_ne_waiting_of hp) hlw').elim
+  | acqFree l0 lk k0 slotID n hl hp hst hk hs hf hle hh => exact (single l0 lk _ hl (phase_ne_waiting_of hp) hlw').elim
+  | acqLocked l0 lk k0 slotID n o hl hp hst hk hs hf hle hh =>
+    exact (single l0 lk _ hl (phase_ne_waiting_of hp) hlw').elim
+  | unlock l0 lk c hl hp => exact (single l0 lk _ hl (by simp [hp]) hlw').elim
+  | relNone l0 lk k0 slotID n hl hp hc hk hs hf hh hw => exact (single l0 lk _ hl (by simp [hp]) hlw').elim
+  | relStale l0 lk k0 slotID n w0 lkw0 hl hp hc hk hs hf hh hw hlw0 hgt =>
+    by_cases e : w = w0
+    · subst e
+      rw [hlw] at hlw0; cases hlw0
+      have hsl : slotID = cfg.slotOf k0 := slot_of_key (h1.wf _ _ hl) hk hs
+      obtain ⟨hk0, _⟩ := awaits_key hw hlw
+      rw [Lock.nextKey, hk0] at hkw; cases hkw
+      have : lkw' = { lkw with acquiredCount := lkw.acquiredCount + 1, isStale := true, phase := .woken } := by
+        have h : upd (upd s.locks l0 (some (relLock lk))) w _ w = some lkw' := hlw'
+        rw [upd_same] at h; exact (Option.some.inj h).symm
+      subst this
+      obtain ⟨hnm, _⟩ := findNode_some hf
+      refine ⟨fun _ => ?_, fun _ => rfl⟩
+      refine ⟨_, ?_, nodeOf_updNode_same (relF_key _ _ _) hsl hf, ?_⟩
+      · exact max n.maxCommitTS lk.commitTS
+      · simp only [relNodeF, List.mem_cons]
+        rcases max_cases n.maxCommitTS lk.commitTS with e | e
+        · rcases h4.max_in_pubs _ n hnm with h0 | h0
+          · rw [e, h0] at hgt; omega
+          · rw [e]; exact ⟨.inr h0, by rw [← e]; exact hgt⟩
+        · rw [e]; exact ⟨.inl rfl, by rw [← e]; exact hgt⟩
+    · exact (rel_other l0 w0 lk _ _ hl hp e hlw').elim
+  | relWake l0 lk k0 slotID n w0 lkw0 hl hp hc hk hs hf hh hw hlw0 hle =>
+    by_cases e : w = w0
+    · subst e
+      rw [hlw] at hlw0; cases hlw0
+      have hsl : slotID = cfg.slotOf k0 := slot_of_key (h1.wf _ _ hl) hk hs
+      obtain ⟨hk0, _⟩ := awaits_key hw hlw
+      rw [Lock.nextKey, hk0] at hkw; cases hkw
+      have : lkw' = { lkw with phase := .woken } := by
+        have h : upd (upd s.locks l0 (some (relLock lk))) w _ w = some lkw' := hlw'
+        rw [upd_same] at h; exact (Option.some.inj h).symm
+      subst this
+      have hstw : lkw.isStale = false := by
+        have := h1.phase _ _ hlw; unfold PhaseOK at this; rw [hpw] at this; exact this.1
+      obtain ⟨hnm, _⟩ := findNode_some hf
+      constructor
+      · intro h; simp only at h; rw [hstw] at h; cases h
+      · rintro ⟨n', c, hn', hc, hgt⟩
+        rw [nodeOf_updNode_same (relF_key _ _ _) hsl hf] at hn'
+        cases hn'
+        simp only [relNodeF, List.mem_cons] at hc
+        rcases hc with e | hc
+        · omega
+        · have := h3.pubs_le _ n c hnm hc; omega
+    · exact (rel_other l0 w0 lk _ _ hl hp e hlw').elim
+
+/-! ## runs with arrivals on other keys -/
+
+/-- every arrival of the run stays outside `S` and uses keys that no lock of `S` uses -/
+def RunSep (cfg : Cfg) (S : LockId → Bool) : State → List Action → Prop
+  | _, [] => True
+  | s, a :: as =>
+    (match a with
+     | .genLock _ keys => S s.nlocks = false ∧ ∀ l lk k, S l = true → s.locks l = some lk → k ∈ keys → k ∉ lk.keys
+     | _ => True) ∧
+    ∀ s', step cfg s a = some s' → RunSep cfg S s' as
+
+/-- number of steps of the run performed on behalf of locks of `S` -/
+def stepsOf (S : LockId → Bool) (as : List Action) : Nat :=
+  (as.filter fun a => match a.lockStep with | some l => S l | none => false).length
+
+theorem run_on_bounded {cfg : Cfg} (S : LockId → Bool) : ∀ (as : List Action) (s s' : State), Reachable cfg s →
+    Sep s S → RunSep cfg S s as → run cfg s as = some s' → stepsOf S as + muOn S s' ≤ muOn S s ∧ Sep s' S
+  | [], s, s', _, hsep, _, h => by
+    simp only [run] at h; cases h
+    exact ⟨by simp [stepsOf], hsep⟩
+  | a :: as, s, s', hr, hsep, hrs, h => by
+    simp only [run] at h
+    cases hs : step cfg s a with
+    | none => rw [hs] at h; cases h
+    | some s1 =>
+      rw [hs] at h
+      have h' : run cfg s1 as = some s' := h
+      have hr1 : Reachable cfg s1 := Reachable.step a hr hs
+      obtain ⟨ha, hrest⟩ := hrs
+      have hrs1 := hrest s1 hs
+      -- one step
+      have hone : (match a.lockStep with | some l => S l | none => false) = true → muOn S s1 < muOn S s := by
+        intro hS
+        cases hl : a.lockStep with
+        | none => rw [hl] at hS; cases hS
+        | some l => rw [hl] at hS; exact (muOn_step S hr hsep hs hl).1 hS
+      have hle : muOn S s1 ≤ muOn S s ∧ Sep s1 S := by
+        cases a with
+        | genLock ts keys =>
+          simp only [step] at hs
+          split at hs
+          · cases hs
+            exact ⟨Nat.le_of_eq (muOn_gen S s ts keys ha.1), hsep.gen hr.inv12.1 ts ha.1 ha.2⟩
+          · cases hs
+        | recycle i ts => simp only [step] at hs; cases hs; exact ⟨Nat.le_refl _, hsep⟩
+        | acquire l =>
+          obtain ⟨a1, a2, a3⟩ := muOn_step S hr hsep hs (l := l) rfl
+          cases hS : S l with
+          | true => exact ⟨Nat.le_of_lt (a1 hS), a3⟩
+          | false => exact ⟨Nat.le_of_eq (a2 hS), a3⟩
+        | unlock l c =>
+          obtain ⟨a1, a2, a3⟩ := muOn_step S hr hsep hs (l := l) rfl
+          cases hS : S l with
+          | true => exact ⟨Nat.le_of_lt (a1 hS), a3⟩
+          | false => exact ⟨Nat.le_of_eq (a2 hS), a3⟩
+        | releaseSlot l =>
+          obtain ⟨a1, a2, a3⟩ := muOn_step S hr hsep hs (l := l) rfl
+          cases hS : S l with
+          | true => exact ⟨Nat.le_of_lt (a1 hS), a3⟩
+          | false => exact ⟨Nat.le_of_eq (a2 hS), a3⟩
+      obtain ⟨ih1, ih2⟩ := run_on_bounded S as s1 s' hr1 hle.2 hrs1 h'
+      refine ⟨?_, ih2⟩
+      simp only [stepsOf, List.filter_cons]
+      by_cases hS : (match a.lockStep with | some l => S l | none => false) = true
+      · have := hone hS
+        simp only [hS, if_true, List.length_cons]
+        simp only [stepsOf] at ih1; omega
+      · simp only [hS]
+        simp only [stepsOf] at ih1
+        have := hle.1
+        simp; omega
+
 end CGV.Latch
